@@ -202,6 +202,39 @@ def run(ctx):
                 walk(fi["file_path"])
         shutil.rmtree(root, ignore_errors=True)
     ctx.cov["files_verified_after_histories"] = hist_files
+    # ---- overlapping calls: several threads digest different multi-chunk files at the same time (threads that each fill a
+    # dataset, a check running while another thread writes); the digest of a file may not depend on who else is hashing
+    import threading
+    sp.sedpack()
+    from sedpack.io.utils import hash_checksums
+    tdir = ctx.scratch / "c16_threads"; tdir.mkdir(exist_ok=True)
+    B0 = 128 * 1024
+    tfiles = []
+    for k in range(6):
+        q = tdir / f"t{k}.bin"
+        data = bytes((i * (k + 3) + k) % 256 for i in range(B0 * (5 + k) + 17 * k + 1))
+        q.write_bytes(data); tfiles.append((q, data))
+    tnames = tuple(ALGOS[(3 * j + ctx.seed) % len(ALGOS)] for j in range(3))
+    tres, terr = {}, []
+    start = threading.Barrier(len(tfiles))
+    def worker(k):
+        try:
+            start.wait(timeout=30)
+            for rep in range(ctx.pick(6, 20)):
+                tres[(k, rep)] = hash_checksums(file_path=tfiles[k][0], hashes=tnames)
+        except Exception as e:  # noqa: BLE001
+            terr.append(f"{type(e).__name__}: {e}")
+    ths = [threading.Thread(target=worker, args=(k,)) for k in range(len(tfiles))]
+    for t in ths: t.start()
+    for t in ths: t.join(120)
+    texp = {k: tuple(independent(n, tfiles[k][1]) for n in tnames) for k in range(len(tfiles))}
+    tbad = [(k, rep) for (k, rep), got in tres.items() if tuple(got) != texp[k]]
+    if terr or tbad or any(t.is_alive() for t in ths):
+        ctx.report({"kind": "digest", "site": "overlapping-calls"},
+                   f"hash_checksums called from {len(tfiles)} threads at once: {len(tbad)} of {len(tres)} results are not the digests of the file's bytes {terr[:1]}",
+                   {"threads": len(tfiles), "names": list(tnames), "wrong": tbad[:6], "sizes": [len(d) for _, d in tfiles], "errors": terr[:3]})
+    ctx.cov["overlapping_calls_verified"] = len(tres)
+    shutil.rmtree(tdir, ignore_errors=True)
     mism = ctx.cov.get("correspondence_mismatch")
     if mism and not ctx.violations:
         ctx.report({"kind": "correspondence"}, "model M-HASH no longer matches the slices hash_checksums feeds",
@@ -212,7 +245,7 @@ def run(ctx):
         "rule": "file sizes around multiples of the read buffer x random algorithm tuples (with repetition) x short-read "
                 "patterns; distinct = (size class, #slices, #names, short-read?) tuples; plus recorded digests of every "
                 "metadata/shard file of small datasets compared with one-shot hashlib/xxhash/sha256sum; and every checksum recorded anywhere "
-                "in the tree (raw JSON walk) after multi-session histories incl. sub-directories written twice",
+                "in the tree (raw JSON walk) after multi-session histories incl. sub-directories written twice; and 6 threads digesting different multi-chunk files at the same time",
         "traces_validated_against_impl": len(cases),
         "samples": [{"size": n, "names": nm, "wants": w[:4], "model_chunks": r["chunks"][:6]} for (p, n, nm, w), r in list(zip(cases, replies))[:4]],
         "input_distribution": {"sizes": sorted(sizes)[:40], "e2e_files": e2e},
